@@ -49,6 +49,9 @@ pub struct WorldOpts {
     /// about NervosDAO cells (maximum withdraw, S, DAO script size) applies to them, while the script
     /// itself accepts everything (the real script's own checks are not consensus code of the node)
     pub dao_cell: bool,
+    /// length of the genesis epoch when it differs from the later epochs' (`epoch_length`): the
+    /// first epoch change then also changes the length, in the permanent-difficulty world too
+    pub genesis_epoch_length: Option<u64>,
 }
 
 impl Default for WorldOpts {
@@ -67,6 +70,7 @@ impl Default for WorldOpts {
             system_cells: false,
             ckb2023_epoch: 0,
             dao_cell: false,
+            genesis_epoch_length: None,
         }
     }
 }
@@ -242,7 +246,7 @@ pub fn consensus(opts: &WorldOpts) -> Consensus {
     let epoch_ext = build_genesis_epoch_ext(
         Capacity::shannons(opts.primary_epoch_reward.unwrap_or(EPOCH_REWARD)),
         opts.genesis_compact_target,
-        opts.epoch_length,
+        opts.genesis_epoch_length.unwrap_or(opts.epoch_length),
         opts.epoch_length * 8,
         (1, 40),
     );
